@@ -22,6 +22,7 @@ func init() {
 			`R05.5 the dir / symlink / file passes contain the deviation tests the property enumerates, each controlling a wound emission; ` +
 			`R05.6 every success return of the per-file check has passed a FILE wound emission or the copy of the file into the validating writer (no shortcut declares content valid unseen). ` +
 			`R05.8 Wound.Healthy() answers true only where Kind == CLOSED_FILE holds (every consumer skips healthy wounds). ` +
+			`R05.3 also: on each outcome of the size test after the copy every path to a success return emits a FILE wound and the wound made there spans [copied, size) resp. [size, copied) with those very values; R18.7 (shared) each file's hash group ends with the file's last block. ` +
 			`NOT decided: that wounds cover every differing offset (block-size arithmetic, drip boundaries), interplay of last-block and size checks.`,
 		Assumptions: []string{"wound emission sites are sends (plain or in a select) on ValidatorContext.Wounds, directly or through a local closure that sends unconditionally"},
 		Run:         runC05,
@@ -150,6 +151,7 @@ func runC05(c *core.Ctx) {
 
 	ruleHealthyVerdict(c, kinds, false)
 	ruleOnlyMarkersAreHealthy(c, "R05.8", kinds)
+	ruleHashGroupsHaveTheirLength(c, "R18.7")
 
 	// ---- R05.2
 	nLits := 0
@@ -898,6 +900,102 @@ func ruleDeviationTable(c *core.Ctx, kinds map[string]int64) {
 			}
 		}
 		c.Floor("R05.6", "success returns of the per-file check", nPF, 1)
+	}
+	// ---- R05.3, continued: what the size test reports. Under copied < size the missing tail is [copied, size);
+	// under copied > size the excess is [size, copied). (1) On the outcome of the test every path to a success
+	// return emits a FILE wound - no further condition decides whether the deviation is reported. (2) The
+	// bounds of the wound made there are the count copied and the signed size themselves, not values
+	// computed from them (rounding the start up to a block boundary loses the first missing block of a file
+	// cut on a boundary, which no block validation ever sees).
+	{
+		isCopied := func(v ssa.Value) bool {
+			for _, o := range core.Origins(v) {
+				ex, ok := o.(*ssa.Extract)
+				if !ok || ex.Index != 0 {
+					return false
+				}
+				cl, ok := ex.Tuple.(*ssa.Call)
+				if !ok || !callTo("io.Copy", "io.CopyBuffer", "io.CopyN")(cl) {
+					return false
+				}
+			}
+			return len(core.Origins(v)) > 0
+		}
+		isSize := func(v ssa.Value) bool {
+			os := core.Origins(v)
+			for _, o := range os {
+				if _, n, ok := core.FieldOf(o); !ok || n != "Size" {
+					return false
+				}
+			}
+			return len(os) > 0
+		}
+		nBr := 0
+		for _, f := range all {
+			for _, b := range f.Blocks {
+				if len(b.Instrs) == 0 || len(b.Succs) != 2 {
+					continue
+				}
+				ifi, ok := b.Instrs[len(b.Instrs)-1].(*ssa.If)
+				if !ok {
+					continue
+				}
+				for _, dir := range []struct {
+					op          token.Token
+					name        string
+					start, end_ func(ssa.Value) bool
+				}{{token.LSS, "copied<size", isCopied, isSize}, {token.GTR, "copied>size", isSize, isCopied}} {
+					for si, succ := range b.Succs {
+						if !condHolds(ifi.Cond, si == 0, dir.op, isCopied, isSize) {
+							continue
+						}
+						// not when the same edge also establishes the opposite (copied != size handled as one test)
+						nBr++
+						isEm := func(x ssa.Instruction) bool {
+							for _, st := range sites {
+								if st.fn == f && st.in == x && st.kind == kinds["FILE"] {
+									return true
+								}
+							}
+							return false
+						}
+						only := func(from, to *ssa.BasicBlock) bool { return from == b && to != succ }
+						var bad []ssa.Instruction
+						for _, rs := range successReturns(f) {
+							if p := core.FindPathSkipping(f, ifi, isInstr(rs.Ret), isEm, only); p != nil {
+								bad = p
+							}
+						}
+						c.Check(bad == nil, "R05.3", core.FnName(f), "on "+dir.name+" a FILE wound is emitted on every path", core.InstrPos(ifi),
+							"every path from this outcome of the size test to a success return emits a FILE wound",
+							"the size deviation "+dir.name+" is found and then, on some path, not reported: a further condition decides whether the wound is made").Path = c.P.PathStrings(bad)
+						// bounds of the literals made under this outcome
+						for _, wl := range woundLits(c.P) {
+							if wl.fn != f || wl.kind != kinds["FILE"] {
+								continue
+							}
+							under := false
+							for _, g := range core.Guards(wl.alloc) {
+								if g.If == ifi && g.Val == (si == 0) {
+									under = true
+								}
+							}
+							if !under {
+								continue
+							}
+							st, hasS := litField(wl.alloc, "Start")
+							en, hasE := litField(wl.alloc, "End")
+							okB := hasS && hasE && dir.start(st) && dir.end_(en)
+							c.Check(okB, "R05.3", core.FnName(f), "the wound made on "+dir.name+" spans from "+map[bool]string{true: "the count copied to the signed size", false: "the signed size to the count copied"}[dir.op == token.LSS], wl.alloc.Pos(),
+								"Start and End are the copied count and the signed size themselves",
+								"the range reported for "+dir.name+" is computed from the copied count / the signed size instead of being them (Start: "+describeOr(st, hasS, "unset")+", End: "+describeOr(en, hasE, "unset")+"): part of the differing range is outside every reported wound")
+						}
+						_ = succ
+					}
+				}
+			}
+		}
+		c.Floor("R05.3", "outcomes of the size test after the copy", nBr, 2)
 	}
 	c.Stats["R05.5.deviation_tests"] = nTok
 
